@@ -305,6 +305,9 @@ func richSetup(nAcc, nVal int) richMid {
 			Tokens: []baskettypes.BasketToken{{Denom: "ukex", Weight: sdk.OneDec(), Amount: sdk.ZeroInt(), Deposits: true, Withdraws: true, Swaps: true}, {Denom: "ueth", Weight: sdk.NewDec(2), Amount: sdk.ZeroInt(), Deposits: true, Withdraws: true, Swaps: true}}})
 		// a UBI record feeding the seeded pool
 		app.UbiKeeper.SetUBIRecord(ctx, ubitypes.UBIRecord{Name: "richubi", DistributionStart: 0, DistributionEnd: 0, DistributionLast: uint64(ctx.BlockTime().Unix()), Amount: 10, Period: 120, Pool: "richpool"})
+		// a DYNAMIC record (tops its pool up to the amount; the genesis record is one, with a 30-day period) on a short period:
+		// its pool is filled above and below the amount by deposits and claims between distributions
+		app.UbiKeeper.SetUBIRecord(ctx, ubitypes.UBIRecord{Name: "richdyn", DistributionStart: 0, DistributionEnd: 0, DistributionLast: uint64(ctx.BlockTime().Unix()), Amount: 30_000, Period: 150, Pool: "richpool", Dynamic: true})
 	}
 }
 
@@ -463,6 +466,8 @@ func (g *richGen) blockEnvironment() {
 		raw.dt = time.Duration(520+g.rn(700)) * time.Second // unstaking period, collective bonding time, inactivity windows
 	case x < 17:
 		raw.dt = time.Duration(3100+g.rn(2000)) * time.Second // spending claim expiry, liquidation period
+	case x < 18 && g.chance(1, 2):
+		raw.dt = time.Duration(2_600_000+g.rn(400_000)) * time.Second // the genesis UBI record's 30-day period, inflation periods
 	case x < 18 || (x < 26 && len(g.w.app.MultiStakingKeeper.GetAllUndelegations(g.ctx)) > 0):
 		raw.dt = time.Duration(605000+g.rn(100000)) * time.Second // unstaking period (one week is the least the chain accepts)
 	}
